@@ -97,6 +97,21 @@ def doc_for(spelling, le, t, where):
     ch = {'encoding': spelling if where == 'change' else None,
           'preamble': pre, 'meta': dict(meta),
           'files': [{'encoding': None, 'meta': dict(meta), 'diff': diff}]}
+    if le is not None:
+        # sections that follow each other with the SAME explicit
+        # line_endings but different effective codecs (own spelling vs
+        # inherited): the change's meta inherits, the file's meta declares,
+        # the second file's diff has no encoding at all
+        ch['meta'] = {'obj': {'k': t}, 'encoding': None, 'line_endings': le}
+        ch['files'][0]['meta'] = {'obj': {'k': t}, 'encoding': spelling,
+                                  'line_endings': le}
+        ch['files'].append({
+            'encoding': None,
+            'meta': {'obj': {'k': 2}, 'encoding': spelling,
+                     'line_endings': le},
+            'diff': {'data': b'-a\n+b\n' if le == 'unix'
+                     else b'-a\r\n+b\r\n',
+                     'encoding': None, 'line_endings': le, 'type': None}})
     doc = {'encoding': spelling if where == 'main' else 'utf-8',
            'changes': [ch]}
     if where != 'main':
